@@ -48,6 +48,12 @@ def subjects(rng):
         w = np.round(rng.uniform(-1, 1, size=(2, 3, rank)), 2)
         P = np.round(rng.uniform(-1, 1, size=(2, 3, 3, rank)), 2)
         out.append(("Gaussian-rank%d" % rank, ("gauss", w, P, (("i", (2, ())), ("y", ("real", (2,))), ("j", (3, ())), ("x", ("real", ()))))))
+    w = np.round(rng.uniform(-1, 1, size=(2, 4)), 2)
+    P = np.round(rng.uniform(-1, 1, size=(2, 4, 4)), 2)
+    out.append(("Gaussian-3-real-inputs", ("gauss", w, P, (("i", (2, ())), ("x", ("real", ())), ("y", ("real", (2,))), ("z", ("real", ()))))))
+    w = np.round(rng.uniform(-1, 1, size=(3,)), 2)
+    P = np.round(rng.uniform(-1, 1, size=(3, 3)), 2)
+    out.append(("Gaussian-3-scalar-inputs", ("gauss", w, P, (("z", ("real", ())), ("x", ("real", ())), ("y", ("real", ()))))))
     out.append(("Delta", ("delta", (("v", ten(rng, "ij"), ten(rng, "j")),))))
     out.append(("getitem-lazy", ("bin", "getitem", (("offset", 0),), ("bin", "add", (), ten(rng, "i", (3,)), X), ("var", "j", (3, ())))))
     return out
